@@ -421,10 +421,10 @@ def _instantiate(gens, container, params_concrete, sym_params):
     return out
 
 
-def e2_kernel(name):
+def e2_kernel(name, registry=None):
     """one E2 obligation per kernel; in concrete (replay) mode the counterexample parameters are run through the real function"""
     def h(sx):
-        spec = KERNELS[name]
+        spec = (registry or KERNELS)[name]
         if not sx.symbolic:
             spec["replay"](sx)
             return
@@ -434,7 +434,7 @@ def e2_kernel(name):
             (sx.int if spec["params"][k] == "int" else sx.bool)(k)      # registered so that a model can be replayed
         res = Result()
         try:
-            K = Kernel(fn, dict(sym, **spec.get("extra_env", {})))
+            K = Kernel(fn, dict(sym, **spec.get("extra_env", {})), self_attrs=spec.get("self_attrs"), lengths=spec.get("lengths", lambda s: {})(sym))
             K.track_arrays = K.index_only = tuple(spec.get("track", ()))
             K.run()
         except Refused as e:
@@ -444,22 +444,26 @@ def e2_kernel(name):
         # ---- translation validation on a box: concrete interpreter == real function == instantiated generators
         for conc in spec["box"]():
             real_faces = spec["real_faces"](conc)
-            kc = Kernel(fn, dict(conc, **spec.get("extra_env", {})), symbolic=False).run()
-            mine = [tuple(t) for t in kc.concrete_appends.get("faces", [])]
-            inst = sorted(t for (_, _, t) in _instantiate(K.generators, "faces", conc, sym))
+            kc = Kernel(fn, dict(conc, **spec.get("extra_env", {})), symbolic=False, self_attrs=spec.get("self_attrs"),
+                        lengths=spec.get("lengths", lambda s: {})(conc)).run()
+            cont = spec.get("container", "faces")
+            mine = [tuple(t) for t in kc.concrete_appends.get(cont, [])]
+            inst = sorted(t for (_, _, t) in _instantiate(K.generators, cont, conc, sym))
             if mine != real_faces or inst != sorted(real_faces):
                 raise symx.Unsupported("translation validation failed for %s at %s" % (name, conc))
         nverts = K.counts.get("vertices")
+        want_nv = spec["nverts"](sym)
+        if nverts is None and spec.get("assume_nverts"):
+            nverts = want_nv        # stated assumption: the number of vertices is the documented one (checked by a bounded E1 obligation)
         if nverts is None:
             sx.external("vertex count of %s is not expressible" % name, "unknown")
             return
-        want_nv = spec["nverts"](sym)
         st, model = prove("vertex count", hyp, nverts == want_nv, res)
         sx.external("%s: number of vertices is the documented function of the parameters, all resolutions" % name, st,
                     inputs=_inputs(model, spec), seconds=res.queries[-1]["seconds"],
                     sample=dict(kind="E2 obligation", kernel=name, goal="#vertices == " + str(want_nv), result=res.queries[-1]["result"]))
         vgen = [g for g in K.generators if g.container == "vertices" and g.pos is not None]
-        fgens = [g for g in K.generators if g.container == "faces"]
+        fgens = [g for g in K.generators if g.container == spec.get("container", "faces")]
         for gi, g in enumerate(fgens):
             dom = z3.And(hyp, g.domain())
             for si, t in enumerate(g.terms):
